@@ -1012,8 +1012,9 @@ void XMLScanner::scanMiscellaneous()
         {
             const XMLCh nextCh = fReaderMgr.peekNextChar();
 
-            // Watch for end of file and break out
-            if (!nextCh)
+            // Watch for end of file and break out. A null character in
+            // the input is not the end of it: it is reported below.
+            if (!nextCh && fReaderMgr.atEOF())
                 break;
 
             if (nextCh == chOpenAngle)
